@@ -14,7 +14,11 @@ import numpy as np
 def fx(x: Any) -> str:
     """Canonical text of one float: NaN == NaN, -0.0 == 0.0 (numerically equal; no property here is about
     the sign of zero, and np.clip(-0.0, 0.0, hi) legitimately returns +0.0), exact otherwise."""
-    x = float(x)
+    if np.size(x) != 1:
+        # not one float (an empty or a many-valued array where a single value is expected): a text of its own, never equal
+        # to the text of a float - the caller's comparison reports it
+        return f"<{np.size(x)} values: " + ",".join(fx(v) for v in np.asarray(x, dtype=float).ravel()[:4]) + ">"
+    x = float(np.asarray(x, dtype=float).reshape(()))
     if x != x:
         return "nan"
     if x == 0.0:
